@@ -2,13 +2,17 @@ package c_bn254
 
 import (
 	"bytes"
+	"crypto/sha256"
 	"encoding/binary"
 	"fmt"
 	"io"
+	"math/big"
 	"sync"
 
 	"github.com/consensys/gnark-crypto/ecc"
 	curve "github.com/consensys/gnark-crypto/ecc/bn254"
+	"github.com/consensys/gnark-crypto/ecc/bn254/fr"
+	cmpc "github.com/consensys/gnark-crypto/ecc/bn254/mpcsetup"
 	"github.com/consensys/gnark/backend/groth16"
 	"github.com/consensys/gnark/backend/groth16/bn254/mpcsetup"
 	cs "github.com/consensys/gnark/constraint/bn254"
@@ -80,8 +84,11 @@ func c18Ser(v io.WriterTo) []byte {
 }
 
 func c18Shape(circuit string) string {
-	if circuit == "commit" {
+	switch circuit {
+	case "commit":
 		return "c1p"
+	case "commit2":
+		return "c2"
 	}
 	return "p1"
 }
@@ -90,7 +97,7 @@ func c18Build(maxN int) {
 	f := &c18Fix
 	f.ccs, f.N = map[string]*cs.R1CS{}, map[string]uint64{}
 	f.p1, f.commons, f.p2 = map[string][][]byte{}, map[string]*mpcsetup.SrsCommons{}, map[string][][]byte{}
-	for _, c := range []string{"plain", "commit", "other"} {
+	for _, c := range []string{"plain", "commit", "commit2", "bigdomain", "other"} {
 		shape := c18Shape(c)
 		if c == "other" {
 			shape = "p2u"
@@ -102,6 +109,9 @@ func c18Build(maxN int) {
 		}
 		f.ccs[c] = ccs.(*cs.R1CS)
 		f.N[c] = ecc.NextPowerOfTwo(uint64(ccs.GetNbConstraints()))
+		if c == "bigdomain" { // a powers-of-tau run larger than this circuit needs
+			f.N[c] *= 4
+		}
 	}
 	chain1 := func(N uint64) [][]byte {
 		var out [][]byte
@@ -123,7 +133,7 @@ func c18Build(maxN int) {
 		}
 		return out, nil
 	}
-	for _, c := range []string{"plain", "commit", "other"} {
+	for _, c := range []string{"plain", "commit", "commit2", "bigdomain", "other"} {
 		for _, ch := range []string{"A", "B"} {
 			bs := chain1(f.N[c])
 			if c == "plain" {
@@ -142,7 +152,7 @@ func c18Build(maxN int) {
 			f.commons[c+"|"+ch] = &commons
 		}
 	}
-	for _, c := range []string{"plain", "commit"} {
+	for _, c := range []string{"plain", "commit", "commit2", "bigdomain"} {
 		for _, ch := range []string{"A", "B"} {
 			var p mpcsetup.Phase2
 			p.Initialize(f.ccs[c], f.commons[c+"|A"])
@@ -326,6 +336,45 @@ func c18Alter(phase int, orig []byte, e *C18Edit) ([]byte, error) {
 	return b, nil
 }
 
+// c18Rebound is a dishonest phase-2 contributor: it rescales its predecessor (prev == nil: the initial state) by secrets
+// it knows and proves knowledge of them, but under a challenge of its own choosing instead of the predecessor's hash.
+func c18Rebound(ccs *cs.R1CS, commons *mpcsetup.SrsCommons, prev []byte) ([]byte, error) {
+	var p mpcsetup.Phase2
+	if prev == nil {
+		p.Initialize(ccs, commons)
+	} else if _, err := p.ReadFrom(bytes.NewReader(prev)); err != nil {
+		return nil, err
+	}
+	h := sha256.Sum256([]byte("a transcript this contribution does not belong to"))
+	p.Challenge = h[:]
+	var delta fr.Element
+	p.Delta = cmpc.UpdateValues(&delta, p.Challenge, mpcsetup.DST_DELTA)
+	sigma := make([]fr.Element, len(p.Parameters.G1.SigmaCKK))
+	p.Sigmas = make([]cmpc.UpdateProof, len(sigma))
+	for i := range sigma {
+		p.Sigmas[i] = cmpc.UpdateValues(&sigma[i], p.Challenge, mpcsetup.DST_SIGMA+byte(i))
+	}
+	var I big.Int
+	scale := func(s []curve.G1Affine) {
+		for i := range s {
+			s[i].ScalarMultiplication(&s[i], &I)
+		}
+	}
+	for i := range sigma {
+		sigma[i].BigInt(&I)
+		p.Parameters.G2.Sigma[i].ScalarMultiplication(&p.Parameters.G2.Sigma[i], &I)
+		scale(p.Parameters.G1.SigmaCKK[i])
+	}
+	delta.BigInt(&I)
+	p.Parameters.G2.Delta.ScalarMultiplication(&p.Parameters.G2.Delta, &I)
+	p.Parameters.G1.Delta.ScalarMultiplication(&p.Parameters.G1.Delta, &I)
+	delta.Inverse(&delta)
+	delta.BigInt(&I)
+	scale(p.Parameters.G1.Z)
+	scale(p.Parameters.G1.PKK)
+	return c18Ser(&p), nil
+}
+
 func c18Run(b *C18Beh) C18Res {
 	res := C18Res{ID: b.ID, Curve: CurveName}
 	f := &c18Fix
@@ -347,6 +396,18 @@ func c18Run(b *C18Beh) C18Res {
 			return res
 		}
 		res.Changed = !bytes.Equal(nb, blobs[b.Edit.I-1])
+		blobs[b.Edit.I-1] = nb
+	}
+	if b.Edit.Kind == "rebound" {
+		var prev []byte
+		if b.Edit.I > 1 {
+			prev = blobs[b.Edit.I-2]
+		}
+		nb, err := c18Rebound(f.ccs[b.Circuit], f.commons[b.Circuit+"|A"], prev)
+		if err != nil {
+			res.Outcome, res.Err = "infra", err.Error()
+			return res
+		}
 		blobs[b.Edit.I-1] = nb
 	}
 	var verr error
